@@ -50,8 +50,14 @@ impl Cert {
         if let Some(c) = self.convex_decidable.first() {
             out.push(("nonconvex_boundary".into(), c.clone()));
         }
-        if let Some(c) = self.coverage_issues.first() {
-            out.push(("coverage".into(), c.clone()));
+        // coverage (every interior sample in exactly one cell) is demanded only when the boundary is
+        // cleanly convex: a decidably non-convex boundary is reported above (a hole or an overlap
+        // next to it is the same defect), and when some boundary / orientation determinant lies in
+        // the tolerance band the hull itself is not determined at the scale of the missing sliver
+        if self.convex_decidable.is_empty() && self.convex_in_band == 0 && self.levels.orient_in_band == 0 {
+            if let Some(c) = self.coverage_issues.first() {
+                out.push(("coverage".into(), c.clone()));
+            }
         }
         let any_strict = self.delaunay.as_ref().map_or(false, |d| !d.violations.is_empty());
         if self.ref_equal == Some(false) && !any_strict && out.is_empty() && self.convex_in_band == 0 && self.levels.orient_in_band == 0 {
